@@ -98,11 +98,25 @@ def prepare(tier):
 
 
 def units(tier):
-    return gen.chunks(len(_rules(tier)), 24)
+    return gen.chunks(len(_rules(tier)), 24) + [["CONF", 0], ["CONF", 1]]
 
 
 def run_unit(unit, tier):
     res = Result()
+    if unit[0] == "CONF":
+        # rules whose paths differ only by 1 / 1.0 / True / '1' (C03's confusable pool), all tested in ONE process, in both orders
+        from mc.props.c03 import CONFUSABLE, CONF_DOCS
+        pool = [T.rule(p, c) for p in CONFUSABLE for c in (LEAVES[0], CONDS8[2])]
+        if unit[1]:
+            pool = pool[::-1]
+        for ri, rt in enumerate(pool):
+            r = build(res, rt, CONF_DOCS[0])
+            live = {list: [], dict: {}}
+            for di, doc in enumerate(CONF_DOCS):
+                if r is not None:
+                    check_case(res, rt, r, doc, key=("CONF", unit[1], ri, di))
+                    r = live_step(res, rt, r, live, doc)
+        return res
     rs = _rules(tier)
     docs = family(tier)
     for ri in range(unit[0], unit[1]):
@@ -111,8 +125,11 @@ def run_unit(unit, tier):
             continue
         # rules with paths of length >= 3 run on the F-deep + F-type documents only
         use = docs if len(rs[ri][1][1]) <= 2 else gen.docs_deep() + gen.docs_type2()
+        live = {list: [], dict: {}}
         for di, doc in enumerate(use):
             check_case(res, rs[ri], r, doc, key=(ri, di))
+            if r is not None:
+                r = live_step(res, rs[ri], r, live, doc)
     res.sample({"rule": rs[unit[0]], "doc": docs[0]})
     return res
 
@@ -126,9 +143,43 @@ def build(res, rt, doc):
         return None
 
 
+def live_step(res, rt, r, live, doc):
+    """The same rule object, and one list / one mapping that its owner edits in place into each document of the
+    family in turn: the verdict is about what the container holds now.  -> the rule (None after a violation)."""
+    c = live[type(doc)]
+    new = fresh(doc)
+    if isinstance(c, list):
+        c[:] = new
+    else:
+        c.clear()
+        c.update(new)
+    want = ref.rule_test(rt, c)
+    if not want["exact"]:
+        return r
+    case = {"rule": rt, "doc": doc, "live": True}
+    res.count("transitions")
+    res.count("live_container_steps")
+    try:
+        t = r.test(c)
+        got = (t.is_valid, t.tested, [tuple(f.path) for f in t.failures])
+    except BaseException as e:
+        res.violation("raises:%s:live:%s" % (type(e).__name__, cshape(rt[2])), "%s (one rule object, one container edited in place) "
+                      "raised %r on %r" % (T.show(rt), e, doc), case, observed=repr(e))
+        return None
+    exp = (want["valid"], want["tested"], [wp for wp, _ in want["failures"]])
+    if got != exp:
+        res.violation("live-container:%s|%s" % (shape(rt[1]), cshape(rt[2])), "%s on a container its owner edited in place to %r: "
+                      "wrong verdict / failing paths" % (T.show(rt), doc), case, observed=got, expected=exp)
+        return None
+    return r
+
+
 def replay(case):
     res = Result()
     r = build(res, case["rule"], case["doc"])
+    if r is not None and case.get("live"):
+        live_step(res, case["rule"], r, {list: [], dict: {}}, case["doc"])
+        return list(res.violations.values())
     if r is not None:
         check_case(res, case["rule"], r, case["doc"], key=("replay",))
     return list(res.violations.values())
